@@ -52,6 +52,10 @@ type GSpec struct {
 func (s *GSpec) termText(t *GTerm) string {
 	switch t.Kind {
 	case KTok:
+		// every third token is referred to by its literal (alias resolution of the front end)
+		if t.Tok%3 == 1 && t.Tok < 26 {
+			return "'" + tokenLiteral(t.Tok) + "'"
+		}
 		return s.Tokens[t.Tok]
 	case KRule:
 		return s.Rules[t.Rule].Name
